@@ -290,6 +290,25 @@ func TestVerifC04MinPrefix(t *testing.T) {
 		cases = append(cases, c04Case{TT: c.TT, Params: c.Params, Desc: c.Desc, Early: 8, Others: k%2 == 0, EarlyAttempt: true})
 		cases = append(cases, c04Case{TT: c.TT, Params: c.Params, Desc: c.Desc, Cuts: []int{1 + k%(c.FLen-1)}, Early: 31, Others: k%2 == 1, EarlyAttempt: true})
 	}
+	// (a') read-buffer boundaries: the handler reads with a 4096-byte buffer; the client's LAST segment is
+	// exactly 4095 / 4096 / 4097 / 8192 bytes long (after which the client waits for the covert's reply),
+	// with the flight uncut, cut inside the tag, and cut right after the tag
+	for _, c := range cfgs {
+		for _, last := range []int{4095, 4096, 4097, 8192} {
+			for _, cut := range []int{0, 20, c.FLen} {
+				early := last + cut - c.FLen
+				if early < 0 {
+					continue
+				}
+				var cuts []int
+				if cut > 0 {
+					cuts = []int{cut}
+				}
+				cases = append(cases, c04Case{TT: c.TT, Params: c.Params, Desc: c.Desc, Cuts: cuts, Early: early, Others: k%2 == 0})
+				k++
+			}
+		}
+	}
 	rec.Exhaustive(fmt.Sprintf("every 1-cut segmentation of flight+3 bytes for %d transport/prefix/flush/port configurations", len(cfgs)))
 	// (b) every 2-cut: quick = min transport and three prefixes (no flush variants); thorough = every prefix id
 	twoCut := []c04Config{cfgs[0]}
